@@ -160,10 +160,58 @@ def depth_rule(ctx: Ctx, rid: str) -> None:
                 f"decode interlock stalls for {v} cycles but the producer needs {dist} more stages to write back",
                 {"duration": v, "distance": dist})
     # the looked-at producers are registers own+1 .. own+stages_until_writeback
-    txt = " ".join(ast.unparse(beh.node).split())
-    ok = "range(self.stages_until_writeback)" in txt and "index_of_own_input_register + i + 1" in txt
+    # every latch the interlock reads is pipeline_registers[own + c + i] for i in range(a, b) with own+c+a = own+1 and
+    # own+c+b-1 = own+stages_until_writeback (linear forms, single-assigned locals substituted)
+    from .linear import linform as _lf
+    from .pathsym import subst as _subst
+    own = beh.params[2] if len(beh.params) > 2 else "index_of_own_input_register"
+    regs = beh.params[1] if len(beh.params) > 1 else "pipeline_registers"
+    N = f"{beh.params[0]}.stages_until_writeback"
+    single: dict = {}
+    counts: dict = {}
+    for n in ast.walk(beh.node):
+        if isinstance(n, ast.Name) and isinstance(n.ctx, ast.Store):
+            counts[n.id] = counts.get(n.id, 0) + 1
+    for n in ast.walk(beh.node):
+        if isinstance(n, ast.Assign) and len(n.targets) == 1 and isinstance(n.targets[0], ast.Name) and counts.get(n.targets[0].id) == 1:
+            single[n.targets[0].id] = n.value
+    for _ in range(4):
+        single = {k: _subst(v, {k2: v2 for k2, v2 in single.items() if k2 != k}) for k, v in single.items()}
+    windows = []
+    for n in ast.walk(beh.node):
+        gens = []
+        if isinstance(n, (ast.ListComp, ast.GeneratorExp, ast.SetComp)):
+            gens = [(g.target, g.iter, [n.elt] + list(g.ifs)) for g in n.generators]
+        elif isinstance(n, ast.For):
+            gens = [(n.target, n.iter, n.body)]
+        for tgt, it, scope in gens:
+            it = _subst(it, single)
+            if not (isinstance(tgt, ast.Name) and isinstance(it, ast.Call) and isinstance(it.func, ast.Name) and it.func.id == "range" and 1 <= len(it.args) <= 2):
+                continue
+            lo = ast.Constant(value=0) if len(it.args) == 1 else it.args[0]
+            hi = it.args[-1]
+            for sc in scope:
+                for x in ast.walk(sc):
+                    if isinstance(x, ast.Subscript) and isinstance(x.value, ast.Name) and x.value.id == regs and not isinstance(x.slice, ast.Slice):
+                        idx = _lf(_subst(x.slice, single))
+                        a_, b_ = _lf(_subst(lo, single)), _lf(_subst(hi, single))
+                        if idx is None or a_ is None or b_ is None or idx.get(tgt.id) != 1:
+                            windows.append(None)
+                            continue
+                        base = {k: v for k, v in idx.items() if k != tgt.id}
+
+                        def add(u: dict, v: dict, sign: int = 1) -> dict:
+                            o = dict(u)
+                            for k, c in v.items():
+                                o[k] = o.get(k, 0) + sign * c
+                            return {k: c for k, c in o.items() if c != 0}
+                        first = add(base, a_)
+                        last = add(add(base, b_), {"": 1}, -1)
+                        windows.append((first, last))
+    want_w = ({own: 1, "": 1}, {own: 1, N: 1})
+    ok = bool(windows) and all(w == want_w for w in windows)
     r.check(ok, "ID.window", beh.loc(),
-            "decode interlock no longer inspects pipeline_registers[own+1 .. own+stages_until_writeback]")
+            f"decode interlock no longer inspects exactly pipeline_registers[own+1 .. own+stages_until_writeback] (windows found: {windows})")
 
 
 def drain_rule(ctx: Ctx, rid: str) -> None:
@@ -230,57 +278,21 @@ def stallpair_rule(ctx: Ctx, rid: str) -> None:
     step = m.method("Pipeline", "step", own=True)
     sn = step.params[0]
 
-    def is_clear(st: ast.stmt, attr: str) -> bool:
-        return isinstance(st, ast.Assign) and len(st.targets) == 1 and isinstance(st.targets[0], ast.Attribute) \
-            and st.targets[0].attr == attr and isinstance(st.targets[0].value, ast.Name) and st.targets[0].value.id == sn \
-            and isinstance(st.value, ast.Constant) and st.value.value is None
-
-    n_pairs = 0
-    for n in ast.walk(step.node):
-        for fld in ("body", "orelse", "finalbody"):
-            blk = getattr(n, fld, None)
-            if not isinstance(blk, list):
-                continue
-            a = [st for st in blk if isinstance(st, ast.stmt) and is_clear(st, "stalled")]
-            b = [st for st in blk if isinstance(st, ast.stmt) and is_clear(st, "stalled_pipeline_regs")]
-            for st in a:
-                n_pairs += 1
-                r.check(bool(b), f"Pipeline.step|clear@{_block_label(n)}", step.loc(st),
-                        "`self.stalled = None` without `self.stalled_pipeline_regs = None` in the same block: "
-                        "the next stall would reuse stale preserved inputs")
-            for st in b:
-                if not a:
-                    r.check(False, f"Pipeline.step|clear-regs@{_block_label(n)}", step.loc(st),
-                            "`self.stalled_pipeline_regs = None` without `self.stalled = None` in the same block")
-    if n_pairs < 2:
-        r.viol("Pipeline.step|pairs", step.loc(), f"only {n_pairs} stall-clearing site(s) left (end of stall, flush)")
-    # flush branch cancels the stall of flushed stages
-    ok = False
-    for n in walk_no_nested(step.node):
-        if isinstance(n, ast.If) and "flush_signal is not None" in " ".join(ast.unparse(n.test).split()):
-            for k in ast.walk(n):
-                if isinstance(k, ast.If):
-                    t = " ".join(ast.unparse(k.test).split())
-                    cmp_ok = False
-                    for c in ast.walk(k.test):
-                        if isinstance(c, ast.Compare) and len(c.ops) == 1 and isinstance(c.ops[0], (ast.Lt, ast.LtE)):
-                            from .linear import linform as _lf
-                            d = _lf(ast.BinOp(left=c.left, op=ast.Sub(), right=c.comparators[0]))
-                            want = {"self.stalled[0]": 1, "num_to_flush": -1}
-                            if isinstance(c.ops[0], ast.LtE):
-                                want = dict(want, **{"": 1})
-                            cmp_ok = cmp_ok or d == want
-                    if "self.stalled is not None" in t and cmp_ok and any(is_clear(st, "stalled") for st in k.body):
-                        ok = True
-    r.check(ok, "Pipeline.step|flush-cancels-stall", step.loc(),
-            "the flush branch no longer cancels a stall exactly when its stalling stage was flushed (self.stalled[0] < num_to_flush)")
-    # flush clears exactly the latches before the flushing one and redirects pc
-    txt = " ".join(ast.unparse(step.node).split())
-    ok = "self.pipeline_registers[:num_to_flush] = [PipelineRegister()] * num_to_flush" in txt \
-        and "self.state.program_counter = flush_signal.address" in txt \
-        and "num_to_flush = index + flush_signal.inclusive" in txt
-    r.check(ok, "Pipeline.step|flush-shape", step.loc(),
-            "flush handling no longer clears pipeline_registers[:index+inclusive] and redirects pc to flush_signal.address")
+    # On the normal form of Pipeline.step: every store `self.stalled = None` has a twin `self.stalled_pipeline_regs = None` under the
+    # same condition (truth tables), wherever the two statements sit.  (That the flush branch cancels a stall exactly when its
+    # stalling stage was flushed, clears the latches in front of the flushing stage and redirects the pc is part of the
+    # reference comparison of Pipeline.step, R0x.step.)
+    from .flowspec import table
+    from .parsershape import normal_flow
+    fl = normal_flow(m, step)
+    _rets, effs = table(fl)
+    import re as _re
+    a = sorted(c for k, t, c, _e in effs if k == "store" and _re.sub(r"@\d+", "", t) == "P0.stalled := None")
+    b = sorted(c for k, t, c, _e in effs if k == "store" and _re.sub(r"@\d+", "", t) == "P0.stalled_pipeline_regs := None")
+    r.check(a == b, "Pipeline.step|clear-pairs", step.loc(), "`self.stalled = None` and `self.stalled_pipeline_regs = None` do not happen under the same "
+            f"conditions ({a} vs {b}): the next stall would reuse stale preserved inputs")
+    if len(a) < 2:
+        r.viol("Pipeline.step|pairs", step.loc(), f"only {len(a)} stall-clearing site(s) left (end of stall, flush)")
 
 
 def _block_label(n: ast.AST) -> str:
